@@ -341,6 +341,11 @@ def _show(v, width=400):
     return s if len(s) <= width else s[:width] + " ...(%d chars)" % len(s)
 
 
+def _show_details(label, details):
+    for k, v in (details or {}).items():
+        print("replay:     %s %s = %s" % (label, k, _show(v, 700)))
+
+
 def replay_failure(prop_id, payload, judge):
     """`./check <ID> --replay <file>` for an oracle failure: run `judge` on the recorded case, print a short account,
     and report the failure again iff the oracle of the recorded kind still fails (known findings stay known)."""
@@ -358,14 +363,15 @@ def replay_failure(prop_id, payload, judge):
     inp = p.get("input")
     if isinstance(inp, list):
         was = p.get("input_unshrunk")
-        print("replay:   input: %d item(s)%s" % (len(inp), (" (%d before shrinking)" % len(was)) if p.get("shrunk") and was else ""))
-        tagged = [k for k in p.get("parallel", []) if k != "records" and isinstance(p.get(k), list) and len(p[k]) == len(inp)]
+        before = (" (%d before shrinking)" % len(was)) if p.get("shrunk") and was else ""
+        print("replay:   input: %d item(s)%s" % (len(inp), before))
+        tagged = [k for k in p.get("parallel", [])
+                  if k != "records" and isinstance(p.get(k), list) and len(p[k]) == len(inp)]
         for i, x in enumerate(inp):
             print("replay:     %s%s" % (_show(x), "".join("   [%s=%s]" % (k, _show(p[k][i], 60)) for k in tagged)))
     elif inp is not None:
         print("replay:   input = %s" % _show(inp))
-    if p.get("details"):
-        print("replay:   recorded details: %s" % _show(p["details"], 1200))
+    _show_details("recorded", p.get("details"))
     got = judge(p)
     res.evaluations = max(1, got.evaluations)
     same = [(w, fp) for w, fp in got.oracle_failures if same_failure(fp, p)]
@@ -375,12 +381,15 @@ def replay_failure(prop_id, payload, judge):
         print("replay:   matches the known finding %s (not a violation)" % key)
     for w, fp in same[:3]:
         print("replay:   now: %s" % w)
-        print("replay:   observed/expected now: %s" % _show(fp.get("details"), 1200))
+        _show_details("now", fp.get("details"))
     for w, fp in other[:3]:
         print("replay:   note: another oracle (%s) fails on this case: %s" % (fp.get("kind"), w))
     for w, fp in same:
         res.oracle_failures.append((w, dict(_jsonable(fp), shrunk=False, no_shrink=True)))
-    print("replay: verdict: oracle %r %s on this tree (%s)" % (p["kind"], "fails" if same else "holds", repo_dir()))
+    verdict = "fails" if same else "holds"
+    if not same and got.known_hits:
+        verdict = "holds apart from the known finding %s" % ", ".join(sorted(got.known_hits))
+    print("replay: verdict: oracle %r %s on this tree (%s)" % (p["kind"], verdict, repo_dir()))
     return res
 
 
